@@ -71,7 +71,23 @@ class C10(Check):
         from ebpfcat.bpf import ProgType
         mask = case.get("mask")
         ncpu = None
-        if mask:
+        pinned = None
+        if mask is None and len(case["ops"]) % 4 == 1:
+            # the kernel's list of possible CPUs cannot be read (no /sys in a container) AND this process is pinned to one CPU: all the
+            # library can fall back on is the machine's CPU count - not the number of CPUs this process may run on
+            import builtins
+            import os
+
+            def fake_open(path, *a, **kw):      # noqa
+                if str(path) == "/sys/devices/system/cpu/possible":
+                    raise FileNotFoundError(path)
+                return builtins.open(path, *a, **kw)
+            arraymap.open = fake_open
+            mask = "unreadable"
+            ncpu = os.cpu_count()
+            pinned = os.sched_getaffinity(0)
+            os.sched_setaffinity(0, {min(pinned)})
+        elif mask:
             import builtins
             import io
             ncpu = sum(int(r.partition("-")[2] or r.partition("-")[0]) - int(r.partition("-")[0]) + 1 for r in mask.split(","))
@@ -83,8 +99,9 @@ class C10(Check):
             arraymap.open = fake_open
         sim = sim_bpf.BpfSim(ncpu)
         tags, results = [], []
-        saved = arraymap.cpu_count
-        arraymap.cpu_count = lambda: case["online"]       # a machine with fewer online than possible CPUs
+        saved = getattr(arraymap, "cpu_count", None)
+        if mask != "unreadable":
+            arraymap.cpu_count = lambda: case["online"]       # a machine with fewer online than possible CPUs
         try:
             with sim_bpf.installed(sim):
                 Key = type("Key", (Structure,), {f"k{i}": Member(f) for i, f in enumerate(case["key"])})
@@ -185,15 +202,20 @@ class C10(Check):
                     else:
                         tags += [tag] * new
         finally:
-            arraymap.cpu_count = saved
+            if saved is not None:
+                arraymap.cpu_count = saved
             if mask:
                 del arraymap.open
+            if pinned is not None:
+                os.sched_setaffinity(0, pinned)
         o = {"calls": [list(c) for c in sim.calls], "tags": tags, "overruns": [list(x) for x in sim.overruns], "results": results, "ncpu": sim.ncpu}
         case["_o"] = o
         return o
 
     def model_term(self, case):
-        o = case["_o"]
+        o = case.get("_o")
+        if o is None or isinstance(o, Err):
+            return None
         if len(o["tags"]) != len(o["calls"]) or any(t is None for t in o["tags"]):
             return None
         return f"(sizes {cz(o['ncpu'])} {clist(['(' + ' '.join([t[0]] + [cz(x) for x in t[1:]]) + ')' for t in o['tags']])})"
@@ -225,7 +247,7 @@ class C10(Check):
 
     def rule(self):
         return ("programs declaring 0-4 hash-map variables (all formats incl. x, with defaults; 6%: 255, 256, 257 or 300 of them), 0-3 per-CPU array variables on a machine with 1/2/4/16 online CPUs "
-                "whose mask of possible CPUs is this machine's or one of 0, 0-7, 0-3,8-11, 0,2-3, 0,2,4,6, 0-1,4-5,8, 0-2,4 (served for /sys/devices/system/cpu/possible), a Dict (a third of them lru=True) with 1-3 key and 1-4 value members of all sizes (30%: the value structure extends a base structure that an earlier Dict uses by itself); load() and 3-12 API operations: Dict set / get / in / pop / pop "
+                "whose mask of possible CPUs is this machine's or one of 0, 0-7, 0-3,8-11, 0,2-3, 0,2,4,6, 0-1,4-5,8, 0-2,4 (served for /sys/devices/system/cpu/possible; a quarter of the cases without a mask: the file cannot be read and the process is pinned to one CPU), a Dict (a third of them lru=True) with 1-3 key and 1-4 value members of all sizes (30%: the value structure extends a base structure that an earlier Dict uses by itself); load() and 3-12 API operations: Dict set / get / in / pop / pop "
                 "with default / del / iteration, hash variable get / set, per-CPU read and indexing")
 
     def distribution(self, cases, observed):
